@@ -99,6 +99,12 @@ CLAIMED = {
             "Static: all CALL_*/VALID macros built from base table through subs; witness unit: intermediates before VALID, VALID "
             "guards every call in 3 kernels, qualified identifiers; _IDENT_RE language; ordered table derivation.",
             "One witness reparameterisation (generator has no model-specific branch). Not decided: numeric equality with base.", "C16"),
+    "C13": ("units (homogeneity) type system over the clang AST of the in-scope shape models",
+            "Static: every arithmetic node of Iq/Fq/Iqac/Iqabc/form_volume/shell_volume/radius_effective is typed with a "
+            "(length, SLD) degree from the declared unit strings; well-typedness with the right return degrees implies the "
+            "scaling law for all inputs; C signatures do not contradict the table; unit strings agree with types.",
+            "Literals are dimensionless; thresholds compare but do not compute. Unresolved functions are reported as "
+            "unanalysed, never as violations. Not decided: the numeric statement itself.", "C13"),
 }
 
 NOT_APPLICABLE = {
